@@ -548,7 +548,11 @@ class Cx:
         eng = self.eng
 
         def call(e, *args):
-            return wrap(res_ty, f(*[to_z3(a, t) for a, t in zip(args, arg_tys)]))
+            def arg(a, t):
+                if isinstance(a, SV) and isinstance(a.ty, TOpt) and a.ty.t == t:
+                    return a.ty.get(a.e)          # spec functions are total: the payload of an optional value
+                return to_z3(a, t)
+            return wrap(res_ty, f(*[arg(a, t) for a, t in zip(args, arg_tys)]))
         b = Builtin(call, name)
         self.spec_env[name] = b
         return f
